@@ -134,6 +134,16 @@ func checkC15(x []byte, sc *c15scratch, c vk.Recorder, key string, runVM bool) {
 				pv, stack, runErr = pv2, stack2, runErr2
 			}
 		}
+		if pv == nil && (!malformed(class) || runErr != nil) {
+			// ... and in a session in which every symbol the code names is already loaded (a node entered again,
+			// an enclosing node that loaded it): paths that skip work for a loaded symbol must still decode it all
+			var runErr3 error
+			pv3, stack3 := runVMLoaded(exact, runInput, &runErr3)
+			c.Count("vm_runs_with_symbols_already_loaded", 1)
+			if pv3 != nil || (malformed(class) && runErr3 == nil) {
+				pv, stack, runErr = pv3, stack3, runErr3
+			}
+		}
 		if pv == nil && malformed(class) && runErr == nil {
 			// the instructions in front of the malformed one neither stop the run nor discard the buffer nor can fail
 			// for lack of a loaded symbol: the run has to decode the malformed instruction and must report it
@@ -216,6 +226,33 @@ func runVMOnState(b []byte, input string, rerr *error, flags ...uint32) (interfa
 		st.SetInput([]byte(input))
 		ca := cache.NewCache()
 		v := vm.NewVm(st, c15Resource{}, ca, render.NewSizer(160))
+		_, *rerr = v.Run(context.Background(), b)
+	})
+}
+
+// everLoaded is a session cache in which every symbol is present.
+type everLoaded struct{ *cache.Cache }
+
+func (m everLoaded) Get(key string) (string, error) {
+	if v, err := m.Cache.Get(key); err == nil {
+		return v, nil
+	}
+	return "v", nil
+}
+
+func (m everLoaded) ReservedSize(key string) (uint16, error) {
+	if v, err := m.Cache.ReservedSize(key); err == nil {
+		return v, nil
+	}
+	return 100, nil
+}
+
+func runVMLoaded(b []byte, input string, rerr *error) (interface{}, string) {
+	return vk.Guard(func() {
+		st := state.NewState(2032)
+		st.Down("root")
+		st.SetInput([]byte(input))
+		v := vm.NewVm(st, c15Resource{}, everLoaded{cache.NewCache()}, render.NewSizer(160))
 		_, *rerr = v.Run(context.Background(), b)
 	})
 }
